@@ -424,7 +424,7 @@ package lua
 // converted into a value - the error object of an *ApiError, else the printed panic value, for ANY recovered value (the
 // type assertion is comma-ok) - and handed to the resumer as (false, value) by switchToParentThread(L, 1, true, true),
 // whose own contract says: the coroutine is killed, control and the flag false plus exactly that value go to the resumer.
-//@ func threadRun$1 [C03 C06]
+//@ func threadRun$1 [C03 C05 C06]
 //@ assume threadRun recovery: when the deferred closure runs, the coroutine has a resumer, a current frame and intact representation invariants (whole-execution facts, assumed)
 //@ requires L != nil && Inv_api(L) && L.G != nil && L.currentFrame != nil && L.currentFrame.Fn != nil && L.stack != nil && $inv(L.stack) && $sp(L.stack) >= 1
 //@ requires L.Parent != nil && Inv_api(L.Parent) && L.Parent != L && L.Parent.reg != L.reg && arrid(L.Parent.reg.array) != arrid(L.reg.array) && L.Parent.currentFrame != L.currentFrame
@@ -672,10 +672,15 @@ package lua
 //@ func (*LState).raiseError [C03 C05 C17]
 //@ requires ls != nil && ls.reg != nil && Inv_reg(ls.reg) && Inv_api(ls) && uvsValid(ls)
 //@ assert@"if ls.reg.IsFull() {" level > 0 ==> ncalls() == old(ncalls()) + 1 && callfn(old(ncalls())) == fnid("(*LState).where") && callargInt(old(ncalls()), 1) == level - 1 && callargBool(old(ncalls()), 2)
+// without format arguments the message is the given string itself (error values containing % are not re-formatted)
+//@ assert@"if level > 0 {" len(args) == 0 ==> message == format
 //@ cut@"ls.Panic(ls)" the panic function (a field of the state) takes over; what PCall's recovery does with it is PCall$1's contract
 //@ modifies ls.reg.array, ls.reg.top, ls.reg.array[*]
 
 //@ func (*LState).Error [C03 C05]
 //@ requires ls != nil && ls.reg != nil && Inv_reg(ls.reg) && Inv_api(ls) && uvsValid(ls) && lv != nil
+// only a STRING error value gets a position prefix (through raiseError); every other value is raised as it is
+//@ assert@"ls.raiseError(level" isStr(lv)
+//@ assert@"ls.Push(lv)" !isStr(lv)
 //@ cut@"ls.Panic(ls)" as in raiseError
 //@ modifies ls.reg.array, ls.reg.top, ls.reg.array[*]
